@@ -138,3 +138,81 @@ Fixpoint rv_weave (acct : account) (cur : commodity) (prev : Z) (rows : list (li
     DTxn t :: rv_weave acct cur (rv_date r) rows' ts'
   | _, _ => []
   end.
+
+(* ---- com.wise: ID, Status, Direction, Created on, Finished on, Source fee amount, Source fee
+   currency, Target fee amount, Target fee currency, Source name, Source amount (after fees),
+   Source currency, Target name, Target amount (after fees), Target currency, Exchange rate,
+   Reference, Batch.  A CANCELLED row is not a booking.  Direction OUT: the source amount leaves
+   the account; IN: it arrives; NEUTRAL: money moves between the owner's balances.  Fees (each
+   fee column pair with a currency and a non-zero amount) leave the account for the fee account.
+   When source and target currency differ the source amount is converted into the target amount
+   (against the trading account) and, for OUT, the target amount then leaves the account.
+   A row thus stands for zero, one or two entries (ws_entries). *)
+Definition ws_cancelled (r : list str) : bool := str_eqb (field r 1) [67;65;78;67;69;76;76;69;68]%Z.
+Inductive ws_dir_t := WsOut | WsIn | WsNeutral | WsOther.
+Definition ws_dir_of (r : list str) : ws_dir_t :=
+  if str_eqb (field r 2) [79;85;84]%Z then WsOut
+  else if str_eqb (field r 2) [73;78]%Z then WsIn
+  else if str_eqb (field r 2) [78;69;85;84;82;65;76]%Z then WsNeutral else WsOther.
+Definition ws_date (r : list str) : Z := date_or0 (parse_iso (firstn 10 (field r 3))).
+Definition ws_fee_of (amount currency : str) : list (commodity * dec) :=
+  if is_empty currency then []
+  else let q := dec_or0 (new_from_string amount) in if is_zero q then [] else [(currency, q)].
+Definition ws_fee_ok (amount currency : str) : bool :=
+  is_empty currency ||
+  (is_some (new_from_string amount) && (is_zero (dec_or0 (new_from_string amount)) || valid_name currency)).
+Definition ws_fees (r : list str) : list (commodity * dec) :=
+  ws_fee_of (field r 5) (field r 6) ++ ws_fee_of (field r 7) (field r 8).
+Definition ws_src (r : list str) : dec := dec_or0 (new_from_string (field r 10)).
+Definition ws_tgt (r : list str) : dec := dec_or0 (new_from_string (field r 13)).
+Definition ws_scur (r : list str) : commodity := field r 11.
+Definition ws_tcur (r : list str) : commodity := field r 14.
+Definition ws_converted (r : list str) : bool := negb (str_eqb (ws_scur r) (ws_tcur r)).
+Definition ws_wf_row (r : list str) : bool :=
+  len_is r 18 && Nat.leb 10 (length (field r 3)) && is_some (parse_iso (firstn 10 (field r 3))) &&
+  (ws_cancelled r ||
+   (ws_fee_ok (field r 5) (field r 6) && ws_fee_ok (field r 7) (field r 8) &&
+    is_some (new_from_string (field r 10)) && is_some (new_from_string (field r 13)) &&
+    valid_name (ws_scur r) && valid_name (ws_tcur r) &&
+    match ws_dir_of r with WsOther => false | _ => true end)).
+Definition ws_id_text (r : list str) : str := map (fun c => if (c =? 45)%Z || (c =? 95)%Z then 32%Z else c) (field r 0).
+Definition ws_text_payment (r : list str) : str := ws_id_text r ++ [32;47;32]%Z ++ field r 12.
+Definition ws_text_convert (r : list str) : str :=
+  ws_id_text r ++ [32;47;32;99;111;110;118;101;114;116;32]%Z ++ to_string (ws_src r) ++ [32%Z] ++ ws_scur r ++
+  [32;116;111;32]%Z ++ to_string (ws_tgt r) ++ [32%Z] ++ ws_tcur r.
+
+Record entry := mkEntry { en_fact : row_effect; en_legs : list leg; en_text : str }.
+
+(* [repaired] selects the reading of "IN with conversion": false = what the code does (the
+   account receives the target amount a second time), true = the account receives the source
+   amount, which the conversion turns into the target amount *)
+Definition ws_entries (repaired : bool) (acct feeacct trading : account) (r : list str) : list entry :=
+  if ws_cancelled r then []
+  else
+    let d := ws_date r in
+    let fee_legs := map (fun f => mkLeg acct feeacct (fst f) (snd f)) (ws_fees r) in
+    let fee_changes := map (fun f => (fst f, neg (snd f))) (ws_fees r) in
+    if ws_converted r then
+      let conv := mkEntry (mkEffect d (fee_changes ++ [(ws_scur r, neg (ws_src r)); (ws_tcur r, ws_tgt r)]))
+                          (fee_legs ++ [mkLeg acct trading (ws_scur r) (ws_src r); mkLeg trading acct (ws_tcur r) (ws_tgt r)])
+                          (ws_text_convert r) in
+      match ws_dir_of r with
+      | WsOut => [conv; mkEntry (mkEffect d [(ws_tcur r, neg (ws_tgt r))]) [mkLeg acct tbd_account (ws_tcur r) (ws_tgt r)] (ws_text_payment r)]
+      | WsIn => [conv; if repaired
+                       then mkEntry (mkEffect d [(ws_scur r, ws_src r)]) [mkLeg tbd_account acct (ws_scur r) (ws_src r)] (ws_text_payment r)
+                       else mkEntry (mkEffect d [(ws_tcur r, ws_tgt r)]) [mkLeg tbd_account acct (ws_tcur r) (ws_tgt r)] (ws_text_payment r)]
+      | WsNeutral => [conv]
+      | WsOther => []
+      end
+    else
+      match ws_dir_of r with
+      | WsOut => [mkEntry (mkEffect d (fee_changes ++ [(ws_scur r, neg (ws_src r))]))
+                          (fee_legs ++ [mkLeg acct tbd_account (ws_scur r) (ws_src r)]) (ws_text_payment r)]
+      | WsIn => [mkEntry (mkEffect d (fee_changes ++ [(ws_scur r, ws_src r)]))
+                         (fee_legs ++ [mkLeg tbd_account acct (ws_scur r) (ws_src r)]) (ws_text_payment r)]
+      | _ => []
+      end.
+
+(* what the row as a whole does to the account in commodity c: the sum over its entries *)
+Definition ws_row_change (repaired : bool) (acct feeacct trading : account) (r : list str) (c : commodity) : Q :=
+  fold_right (fun e s => (expected (re_changes (en_fact e)) c + s)%Q) 0%Q (ws_entries repaired acct feeacct trading r).
